@@ -437,3 +437,9 @@ def r16_2(ctx, g):
 def run(ctx):
     g = ctx.step(r16_1, ctx)
     ctx.step(r16_2, ctx, g)
+    # the inverse lookup reads transition outputs and final outputs through the node accessors: every accessor must read the offset the
+    # format assigns (the reader half of the layout table, shared with C01 / C02 / C10)
+    from rules import readerrules
+    R1 = ctx.rule('R01.1', 'reader offsets of every node accessor equal the positions the format table assigns (shared with C01)', floor=30)
+    R2 = ctx.rule('R02.2', 'scan / index agreement on the reader side (shared with C02)', floor=2)
+    ctx.step(readerrules.run, ctx, R1, R2)
